@@ -24,6 +24,7 @@ type Env struct {
 	spec    *specCtx
 	iterKey string // state key of the map iterator of the loop being specified
 	now     *Env   // inside old(...): the environment outside, reachable with now(e)
+	callerEntry *State // while a callee's requires is checked at a call site: the calling function's entry state
 }
 
 type specCtx struct {
@@ -770,6 +771,16 @@ func (e *Enc) evalCall(n *CallE, env *Env) (TV, error) {
 			r = "(sbase " + a.S + ")"
 		}
 		return TV{fmt.Sprintf("(> %s %s)", r, alloc0), sBool, tBool}, nil
+	case "callerFresh": // in a requires clause: the argument was allocated during the calling function's activation
+		if env.callerEntry == nil {
+			return TV{"true", sBool, tBool}, nil // inside the callee nothing is known about its caller
+		}
+		a := args[0]
+		r := a.S
+		if a.Sort == sSlice {
+			r = "(sbase " + a.S + ")"
+		}
+		return TV{fmt.Sprintf("(> %s %s)", r, e.get(env.callerEntry, e.allocKey())), sBool, tBool}, nil
 	case "allocated":
 		a := args[0]
 		al := env.getComp(e.allocKey(), false)
